@@ -181,6 +181,34 @@ pub fn match_known<'a>(
 
 /// Digest of a run's record set (order-normalised by the caller). Two runs of the same check with
 /// the same seed must produce the same digest whatever the number of worker processes.
+/// The same digest over records that are still JSON text (each is parsed and re-serialised, so
+/// that the digest does not depend on how a worker happened to print it).
+pub fn digest_record_lines<'a>(lines: impl Iterator<Item = &'a str>) -> String {
+    let mut h = blake3::Hasher::new();
+    for l in lines {
+        let mut v: Value = serde_json::from_str(l).expect("a record line parses");
+        drop_timing_dependent(&mut v);
+        h.update(v.to_string().as_bytes());
+        h.update(b"\n");
+    }
+    h.finalize().to_hex()[..16].to_string()
+}
+
+/// Observations that depend on real thread timing are reported under keys named
+/// `timing_dependent`; they are judged, but they are not part of the deterministic record.
+fn drop_timing_dependent(v: &mut Value) {
+    match v {
+        Value::Object(m) => {
+            m.remove("timing_dependent");
+            for (_, x) in m.iter_mut() {
+                drop_timing_dependent(x);
+            }
+        }
+        Value::Array(a) => a.iter_mut().for_each(drop_timing_dependent),
+        _ => {}
+    }
+}
+
 pub fn digest_records<'a>(lines: impl Iterator<Item = &'a Value>) -> String {
     let mut h = blake3::Hasher::new();
     for v in lines {
